@@ -5,6 +5,9 @@ EXTENDS TxExec
 
 CONSTANTS SyncContracts,  \* contracts whose handler is synchronous (harness: a SyncContractHandler); they and
                           \* the Hangers are only called without value
+          EEContracts,    \* contracts whose handler is asynchronous in the way of an execution engine: it
+                          \* answers later, asks for inter-calls by callContext.OnCall and gets their
+                          \* results by SendResult (harness: an AsyncContractHandler double); no value
           WithMsg,        \* programs may emit BTP messages (needs an open BTP network in the harness)
           MsgLen, CallLen \* bytes of the data field of message / call transactions (harness encoding)
 
@@ -13,6 +16,7 @@ K2 == "k2"
 Out(c) == IF WithMsg THEN OMsg ELSE OEv
 Hang(c) == OCall("z", 0, <<>>, c)              \* "z" \in Hangers: the call times out
 Sy == "s"                                      \* the synchronous contract
+Ee == "e"                                      \* the execution-engine style contract
 \* programs that end in a timeout: directly, after events, one level deeper below a synchronous
 \* frame, with catch flags that must not swallow the timeout
 TimeoutProgs == {
@@ -48,7 +52,8 @@ ProgsOf(s, o) == TimeoutProgs \cup {
   <<OCall(o, 2, <<OXfer("b", 1, FALSE), OEv>>, FALSE), OSet(K1, 2)>>,        \* callee forwards part of the value
   <<OSet(K1, 0), OSet(K2, 0), OEv>>,                                        \* deletes storage
   <<Out(s), OCall(o, 0, <<Out(s), ORevert>>, TRUE), OCall(o, 0, <<Out(s)>>, TRUE), OBurn(2)>>,
-  <<OTake(1), OCall(o, 1, <<OTake(1), OXfer("a", 3, TRUE)>>, TRUE), OXfer("a", 1, TRUE)>>  \* refunds
+  <<OTake(1), OCall(o, 1, <<OTake(1), OXfer("a", 3, TRUE)>>, TRUE), OXfer("a", 1, TRUE)>>, \* refunds
+  <<OSet(K1, 1), OCall(Ee, 0, <<OSet(K2, 2), OEv, OCall(o, 0, <<OSet(K1, 2), OEv, ORevert>>, TRUE)>>, FALSE), OEv>>
 }
 Other(c) == IF c = "x" THEN "y" ELSE "x"
 \* the synchronous contract runs the timeout programs and a few basic ones
@@ -59,14 +64,27 @@ SyncProgs == TimeoutProgs \cup {
   <<OSet(K1, 1), OCall("x", 0, <<OSet(K1, 2), OEv, ORevert>>, TRUE), OEv>>,
   <<OSet(K2, 2), OCall("x", 0, <<OSet(K2, 1), OEv>>, FALSE), OXfer("b", 1, TRUE)>>
 }
-NoValue == SyncContracts \cup Hangers
+\* the execution-engine style contract: calls in both directions across all three handler kinds,
+\* failures of inner frames that are caught, a timeout two asynchronous frames deep
+EEProgs == TimeoutProgs \cup {
+  <<OSet(K1, 1), OEv>>,
+  <<OSet(K1, 1), OEv, ORevert>>,
+  <<OSet(K1, 2), OEv, OBurn(3), OSet(K2, 1)>>,
+  <<OSet(K1, 1), OCall("x", 0, <<OSet(K1, 2), OEv, ORevert>>, TRUE), OEv>>,
+  <<OSet(K2, 2), OCall(Ee, 0, <<OSet(K1, 1), OEv, OCall(Sy, 0, <<OSet(K2, 1), OEv, ORevert>>, TRUE)>>, FALSE), OXfer("b", 1, TRUE)>>,
+  <<OEv, OCall(Ee, 0, <<OSet(K2, 1), OEv, Hang(FALSE)>>, TRUE), OEv>>,
+  <<OSet(K1, 1), OCall("x", 1, <<OSet(K1, 1), OEv>>, FALSE), OTake(1), ORevert>>,
+  <<OTake(2), OCall(Ee, 0, <<OBurn(2), OSet(K1, 2)>>, TRUE), OCall("y", 0, <<OSet(K2, 2), OEv>>, FALSE)>>
+}
+NoValue == SyncContracts \cup EEContracts \cup Hangers
 
 Shape(kind, to, dlen, prog) == [kind |-> kind, to |-> to, dlen |-> dlen, prog |-> prog]
 Shapes ==
-  {Shape("transfer", to, 0, <<>>) : to \in Payees \cup (Contracts \ SyncContracts) \cup Ghosts}
-  \cup {Shape("message", to, MsgLen, <<>>) : to \in Users \cup (Contracts \ SyncContracts)}
-  \cup UNION {{Shape("call", c, CallLen, p) : p \in ProgsOf(c, Other(c))} : c \in Contracts \ SyncContracts}
+  {Shape("transfer", to, 0, <<>>) : to \in Payees \cup (Contracts \ NoValue) \cup Ghosts}
+  \cup {Shape("message", to, MsgLen, <<>>) : to \in Users \cup (Contracts \ NoValue)}
+  \cup UNION {{Shape("call", c, CallLen, p) : p \in ProgsOf(c, Other(c))} : c \in Contracts \ NoValue}
   \cup {Shape("call", c, CallLen, p) : c \in SyncContracts, p \in SyncProgs}
+  \cup {Shape("call", c, CallLen, p) : c \in EEContracts, p \in EEProgs}
   \cup {Shape("call", h, CallLen, <<>>) : h \in Hangers}
   \cup {Shape("call", g, CallLen, <<>>) : g \in Ghosts}
 
@@ -79,7 +97,8 @@ Need(ww, from, sh, value) == ExecExact(ww, 0, Mk(from, sh, value, 1000000)).su
 LimitChoices(ww, p, from, sh, value) ==
   LET n == Need(ww, from, sh, value)
       aff == IF p > 0 /\ ww.bal[from] >= value THEN {(ww.bal[from] - value) \div p, (ww.bal[from] - value) \div p + 1} ELSE {}
-  IN {l \in {DefaultCost, n - 3, n - 2, n - 1, n, n + 1, n + 2} \cup aff : l >= DefaultCost}
+  \* (DefaultCost - 1: a limit below the minimum charge, possible after the step costs were raised)
+  IN {l \in {DefaultCost - 1, DefaultCost, n - 3, n - 2, n - 1, n, n + 1, n + 2} \cup aff : l >= DefaultCost - 1 /\ l >= 0}
 ValueChoices(ww, from) == {0, 1, 2, 3} \cup {v \in {ww.bal[from] - 5, ww.bal[from] - 2, ww.bal[from], ww.bal[from] + 1} : v >= 0}
 ValueChoicesFor(ww, from, to) == IF to \in NoValue THEN {0} ELSE ValueChoices(ww, from)
 =============================================================================
